@@ -133,6 +133,8 @@ def step (st : DS) (line : String) : DS × String :=
   | ["ipc"] => (st, bstr b.invalidPieceCount)
   | ["abs"] => (st, posStr b.abs)
   | ["specapply", m] => (st, posStr (Rules.apply b.abs (decodeMove m.toNat!)))
+  | ["specafter", m] =>   -- the FIDE-legal moves of the rule-book successor Rules.apply (abs b) m
+    (st, movesStr (sortNat ((Rules.legalMoves (Rules.apply b.abs (decodeMove m.toNat!))).map encodeMove)))
   | ["speclegal", m] => (st, bstr (Rules.legal b.abs (decodeMove m.toNat!)))
   | ["perft", d] => (st, toString (MoveGen.perft K b d.toNat!))
   | _ => (st, "bad-op")
